@@ -76,4 +76,9 @@ Definition marked_line (m s : N) (id : list N) : list N :=
         | None => false end).
 
 Definition cut_line (b : bool) : list N := render_cut b.
+
+(* Type1 `x <op> y` (name_like) resp. `1 <op> y`; op is the printed operator; control operators start with a dot followed by a letter *)
+Definition type1_line (name_like : bool) (op : list N) : list N :=
+  let is_ctl := match op with 46 :: c :: _ => negb (c =? 46) | _ => false end in
+  render_type1 name_like (if name_like then [120] else [49]) op is_ctl [121].
 Definition rangeop_line (b : bool) : list N := render_rangeop b.
